@@ -140,6 +140,25 @@ CHECKS = {
         "note": "Not decided: monotonicity as numbers, distinguishability from the asymptote, finiteness, ArasimIce positivity (extrapolating "
                 "interp1d). Trusted: PolyNF identities, sign-domain table.",
     },
+    "C15": {
+        "technique": "static analysis: constant folding of the shell tables, decision/partition shape rules, polynomial normal form of the chord geometry",
+        "text": "Shell tables of both Earth models fold to strictly increasing radii ending at earth_radius with one density per shell (R15a); "
+                "density() partitions [0,R) into half-open shells evaluated at the fractional radius on a common array path (R15b, sufficient "
+                "for 'piecewise reference value, zero outside, scalar = array'); direction only through normalize (R15c: length-independent); "
+                "chord geometry in normal form: discriminant, far root, sample points endpoint + ts*distance*direction with the same distance "
+                "scaling the integrand, radius shift, factor 100 (R15d); early exits before the integration (R15e).",
+        "note": "Not decided: convergence order in `step`, growth with dip angle, PREM polynomial values. Trusted: np.piecewise semantics, PolyNF.",
+    },
+    "C17": {
+        "technique": "static analysis: clone comparison of the band mask, normal-form formula rules, degree-domain abstract interpretation, read-set and signature agreement",
+        "text": "Band mask and frequency grid are identical clones in the FFT noise constructor and sampled function and the published "
+                "frequencies are the in-band bins / linspace(f_min,f_max,endpoint=False) (R17a: all published frequencies in band); rms "
+                "formula and decision in normal form, waveform Hom(1) in rms and linear in the amplitudes by the degree domain (R17b); both "
+                "normalisations, DC zeroing and default basis distributions (R17c); the sampled functions read only constructor-time "
+                "attributes, never self.times (R17d: function of absolute time); interchangeable signatures, published basis = what the "
+                "writer stores, make_noise calls bind both implementations (R17e).",
+        "note": "Not decided: RMS as a statistic, interpolation error between FFT grid points, statistical independence. Trusted: degree-domain table.",
+    },
 }
 
 _TODO = "check not built yet in this session (see DESIGN.md section 3 for the planned rules)"
